@@ -8,6 +8,8 @@ import posixpath
 import re
 import shutil
 import tempfile
+import unicodedata
+from urllib.parse import unquote
 
 from lib.common import enc_str, enc_ostr, enc_strs, dec_str, dec_ostr, dec_strs, model_run, src_hashes
 
@@ -25,8 +27,9 @@ RULE = ("generated multi-document Sphinx projects (directory depth 0-3, .md and 
 TRUSTED = ["coq/XRef/Path.v, coq/XRef/XRefModel.v are hand transcriptions of posixpath/pathlib/Sphinx path functions and of "
            "render_link*/ResolveAnchorIds/MystReferenceResolver (checked by correspondence, not proved)",
            "Sphinx 8.2 environment, html builder and writer (pages, _downloads copies) as oracles",
-           "the generated names stay in [A-Za-z0-9._-]: urllib.parse.quote, markdown-it normalizeLink/normalizeLinkText and "
-           "unicodedata NFC are the identity on them; str.lower is ASCII lower"]
+           "generated names: ASCII [A-Za-z0-9._-] plus NFC non-ASCII letters and a space; observed URIs are compared after "
+           "urllib.parse.unquote (quote is injective on them), markdown-it normalizeLink followed by normalizeLinkText is the "
+           "identity on them (exercised: a lost decode shows as a disagreement); str.lower is ASCII lower on label names"]
 ORACLES = {
     "O_sphinx_env": "env.all_docs, clean_astext(env.titles), env.metadata[doc]['myst_slugs'] (slug -> section id, title), "
                     "std labels/anonlabels and the files below srcdir are what the project description says: compared on every "
@@ -62,17 +65,19 @@ def gen(ctx):
 
 # =========================================================================== project generator
 
-DIRN = ["a", "b", "c", "pkg", "sub-1", "x_y"]
-STEMS = ["one", "two", "three", "intro", "api", "guide", "notes", "z9", "v1.2", "Read"]
+# names include characters that markdown-it percent-encodes in the href (non-ASCII letters, a space)
+DIRN = ["a", "b", "c", "pkg", "sub-1", "x_y", "s\u00fcd", "my dir"]
+STEMS = ["one", "two", "three", "intro", "api", "guide", "notes", "z9", "v1.2", "Read", "z\u00fcrich", "my doc"]
 HEADS = [("Sec A", "Sec A"), ("Sec B", "Sec B"), ("Setup & Run", "Setup & Run"), ("Using `code` here", "Using code here"),
          ("An *emphasised* word", "An emphasised word"), ("Install", "Install"), ("FAQ (short)", "FAQ (short)"),
-         ("sec a", "sec a"), ("Setup Run", "Setup Run"), ("Deep Part", "Deep Part"), ("Notes!", "Notes!")]
+         ("sec a", "sec a"), ("Setup Run", "Setup Run"), ("Deep Part", "Deep Part"), ("Notes!", "Notes!"),
+         ("\u00dcber uns", "\u00dcber uns"), ("Caf\u00e9 *cr\u00e8me*", "Caf\u00e9 cr\u00e8me")]
 TITLES = [("One", "One"), ("The *Second* doc", "The Second doc"), ("Guide to `x`", "Guide to x"), ("Sec A", "Sec A"),
           ("Overview", "Overview"), ("API reference", "API reference"), ("Install", "Install")]
 TEXTS = [("plain text", "plain text"), ("*em* `co`", "em(em) c(co)"), ("**bold** and *it*", "st(bold) and em(it)"),
          ("a `x` b", "a c(x) b"), ("nested **b *i***", "nested st(b em(i))"), ("T", "T")]
 EXTRA_NAMES = ["data.txt", "script.py", "paper.pdf", "notes.txt", "archive.tar.gz", "Makefile"]
-LABW = ["alpha", "beta", "gamma", "delta", "eps", "zeta", "eta", "theta"]
+LABW = ["alpha", "beta", "gamma", "delta", "eps", "zeta", "eta", "theta", "\u00fcber"]
 
 
 def gen_project(rng, size=None):
@@ -140,11 +145,11 @@ def gen_project(rng, size=None):
     if rng.random() < 0.15:
         desc["nitpick"] = ["ignored-target", "nodoc-ignored"]
     # an ambiguous name now and then: a label equal to a root-level docname
-    if rng.random() < 0.08:
+    if rng.random() < 0.15:
         roots = [d for d in docs if "/" not in d["docname"] and d["ext"] == ".md" and d["docname"] != "index"]
         mds = [d for d in docs if d["ext"] == ".md" and d["docname"] != "index"]
-        if roots and mds:
-            holder = rng.choice(mds)
+        holder = rng.choice(mds) if mds else None
+        if roots and holder and all(make_id(h[1]) != make_id(roots[0]["docname"]) for h in headings_of(holder)):
             holder["blocks"].append({"k": "heading", "level": 2, "md": "Ambig", "text": "Ambig",
                                      "label": roots[0]["docname"].lower()})
             desc["ambiguous"] = roots[0]["docname"].lower()
@@ -194,7 +199,9 @@ def slugify(title):
 
 
 def make_id(s):
-    i = re.sub(r"[^a-z0-9]+", "-", " ".join(s.lower().split()))
+    """docutils.nodes.make_id for the generated alphabet (accents are stripped through NFKD)"""
+    i = unicodedata.normalize("NFKD", s.lower()).encode("ascii", "ignore").decode("ascii")
+    i = re.sub(r"[^a-z0-9]+", "-", " ".join(i.split()))
     return re.sub(r"^[-0-9]+|-+$", "", i)
 
 
@@ -249,6 +256,8 @@ def gen_links(rng, desc):
     def add(src, form, dest, intent, text=None):
         if text is None:
             text = rng.choice(TEXTS) if rng.random() < 0.5 else ("", "")
+        if form == "auto" and " " in dest:
+            form = "inline"          # an autolink cannot contain a space
         if form == "auto":
             text = ("", "")
         n[0] += 1
@@ -322,7 +331,12 @@ def gen_links(rng, desc):
                 sp, style = spell(rng, fd, e["path"])
                 scheme = rng.choice(["", "", "path:"])
                 form = "auto" if scheme and rng.random() < 0.5 else "inline"
-                add(src, form, scheme + sp, {"kind": "file", "path": e["path"], "style": style, "scheme": scheme, "shown": sp})
+                if rng.random() < 0.12:
+                    # a fragment after a file name: dropped for plain links, part of the file name for path:
+                    add(src, form, scheme + sp + "#frag", {"kind": "quirk"} if scheme else
+                        {"kind": "file", "path": e["path"], "style": style, "scheme": scheme, "shown": sp})
+                else:
+                    add(src, form, scheme + sp, {"kind": "file", "path": e["path"], "style": style, "scheme": scheme, "shown": sp})
             elif r < 0.97:                                 # ---- missing targets
                 m = rng.random()
                 nit = desc["nitpick"]
@@ -359,6 +373,10 @@ def gen_links(rng, desc):
                 else:
                     w = "n" * rng.choice([256, 300, 5000]) + rng.choice(["", ".md", ".txt"])
                     add(src, "inline", w, {"kind": "missing", "what": "overlong", "name": w[:40]})
+            elif desc.get("ambiguous") and rng.random() < 0.5:  # ---- a name that is both a label and a docname
+                amb = desc["ambiguous"]
+                sp, style = spell(rng, fd, [d["docname"] for d in docs if d["docname"].lower() == amb][0])
+                add(src, "inline", rng.choice([sp, "#" + amb, amb]), {"kind": "quirk", "what": "ambiguous"})
             else:                                          # ---- quirk spellings: model correspondence only
                 tgt = rng.choice(docs)
                 p = tgt["docname"] + tgt["ext"]
@@ -458,16 +476,16 @@ def observe_doctree(doctree, dlmap):
         e = els[0]
         if e.tagname == "download_reference":
             if "refuri" in e:
-                tgt = "E:" + e["refuri"]
+                tgt = "E:" + unquote(e["refuri"])
             elif "filename" in e:
                 tgt = "DL:" + dlmap.get(e["filename"], "?" + e["filename"])
             else:
                 tgt = "DM"
         elif isinstance(e, nodes.reference):
             if "refuri" in e:
-                tgt = ("U:" if e.get("internal") else "E:") + e["refuri"]
+                tgt = ("U:" if e.get("internal") else "E:") + unquote(e["refuri"])
             elif "refid" in e:
-                tgt = ("R:" if (e.get("internal") or e.get("id_link")) else "F:") + e["refid"]
+                tgt = ("R:" + e["refid"]) if (e.get("internal") or e.get("id_link")) else ("F:" + unquote(e["refid"]))
             else:
                 tgt = "?:reference"
         elif e.tagname == "pending_xref":
@@ -912,7 +930,7 @@ def projects_for(ctx, phase):
     """The generated projects of this run with their builds (shared by corr and search)."""
     key = (ctx.seed, ctx.tier, phase)
     if key not in _BUILT:
-        nproj = ctx.budget(110, 1500, 400) if phase == 0 else ctx.budget(150, 600, 600)
+        nproj = ctx.budget(300, 5000, 600) if phase == 0 else ctx.budget(300, 800, 800)
         descs = [gen_project(ctx.rng) for _ in range(nproj)]
         obs = build_many(descs)
         _BUILT[key] = (descs, obs)
@@ -950,7 +968,7 @@ def resolve_href(page, href):
     """(target page or URL, fragment|None) of an href found on [page] (path relative to the output dir)."""
     if re.match(r"^[a-zA-Z][a-zA-Z0-9+.-]*:", href):
         return href, None
-    path, sep, frag = href.partition("#")
+    path, sep, frag = unquote(href).partition("#")
     if path == "":
         return page, (frag or None)
     return posixpath.normpath(posixpath.join(posixpath.dirname(page), path)), (frag or None)
